@@ -204,7 +204,7 @@ func prepareMaterial(t *vk.T) string {
 		t.Broken("only %d usable documents", len(m.docs))
 	}
 	m.nGeneral = len(m.docs)
-	m.docs = append(m.docs, freeListDocs(t, t.Pick(8, 16))...)
+	m.docs = append(m.docs, freeListDocs(t, t.Pick(len(freeListKinds), 2*len(freeListKinds)))...)
 	if len(m.docs)-m.nGeneral < 4 {
 		t.Broken("only %d usable free-list documents", len(m.docs)-m.nGeneral)
 	}
